@@ -67,6 +67,8 @@ func (c *Ctx) idSpec() *Spec {
 
 func checkC16(c *Ctx) {
 	p := c.P
+	p.inline = true // trivial local helpers (one return) are transparent to the provenance descriptors
+	defer func() { p.inline = false }()
 	c.Clause("feature disabled ⇒ the function returns before touching any header")
 	c.Clause("enabled ⇒ the response header is set exactly once, under the configured name, before the chain runs")
 	c.Clause("generated path: request and response receive the same generated value; supplied path: the request is untouched and the response value is TrimSpace of the supplied one")
@@ -245,13 +247,59 @@ func checkC16(c *Ctx) {
 			fmt.Sprintf("crypto/rand.Read over %d bytes, hex-encoded on the success edge", size),
 			fmt.Sprintf("identifiers are not derived from ≥ 12 bytes of crypto/rand (read=%v, bytes=%d, encoded=%v): concurrent requests can collide", readOK, size, okRet))
 	}
+	c.idHeadersSurvive()
 	c.outermostMiddleware()
+}
+
+// idHeadersSurvive: inner layers (plugins, the balancer, wrappers) never remove or blank response
+// headers wholesale or the ID headers specifically, so error responses written inside the chain
+// (429, 503, 413, 401) still carry what RequestContextMiddleware set.
+func (c *Ctx) idHeadersSurvive() {
+	p := c.P
+	n := 0
+	var bad []string
+	for _, fn := range p.Funcs {
+		if !p.InScope(fn) {
+			continue
+		}
+		for _, ci := range callsIn(fn) {
+			name := CalleeName(ci)
+			args := ci.Common().Args
+			switch name {
+			case "(net/http.Header).Del", "(net/http.Header).Set":
+				if !strings.Contains(p.Desc(args[0], nil), "ResponseWriter).Header(") {
+					continue
+				}
+				n++
+				key, isConst := constStr(args[1])
+				if name == "(net/http.Header).Del" && !isConst {
+					bad = append(bad, p.InstrPos(ci)+": "+p.FuncKey(fn)+" deletes response headers under a computed key ("+p.Desc(args[1], nil)+"): the request/trace ID headers set by the outer middleware are removed from this response")
+				}
+				if isConst && (strings.EqualFold(key, "X-Request-ID") || strings.EqualFold(key, "X-Trace-ID")) && !strings.HasSuffix(fnPkg(fn).Pkg.Path(), "/internal/logging") && fn.Name() != "init" && !strings.Contains(p.FuncKey(fn), "example_request_id") && !strings.HasPrefix(p.FuncKey(fn), "plugins.init#") {
+					bad = append(bad, p.InstrPos(ci)+": "+p.FuncKey(fn)+" rewrites the "+key+" response header inside the chain")
+				}
+			case "builtin:delete":
+				if strings.Contains(p.Desc(args[0], nil), "ResponseWriter).Header(") {
+					n++
+					bad = append(bad, p.InstrPos(ci)+": "+p.FuncKey(fn)+" deletes entries of the response header map directly")
+				}
+			}
+		}
+	}
+	if len(bad) == 0 {
+		c.Pass("id-headers-survive", "response-header-writers", "-", fmt.Sprintf("%d response header Set/Del sites inside the chain, none removes headers wholesale or touches the ID headers", n))
+	} else {
+		c.Fail("id-headers-survive", "response-header-writers", "-", bad[0], bad...)
+	}
 }
 
 // outermostMiddleware: buildHandler returns RequestContextMiddleware(...)(handler) on every
 // non-error path (shared by C16 and C01).
 func (c *Ctx) outermostMiddleware() {
 	p := c.P
+	saved := p.inline
+	p.inline = false
+	defer func() { p.inline = saved }()
 	bh := p.Fn("cmd/helios", "", "buildHandler")
 	construct := "cmd/helios.buildHandler"
 	if bh == nil {
